@@ -12,7 +12,8 @@ def fill(claim, na):
     claim("C17",
           "must-dataflow over CFG branch facts (half-open bound dominates every index/translated forward); "
           "empty-optional edge must reach exit only via throw; linear forms over accessors for the extents each Volume "
-          "is created with; coordinate consistency (linear forms through the constructor) of the bound in Volume::Access",
+          "is created with; coordinate consistency (linear forms through the constructor) of the bound in Volume::Access; "
+          "agreement of each FileView's limit with its own geometry; dependency analysis of the MMB slot offset",
           "Decides the bound clause for all inputs: every override of DataAccess::read_block and the sector cache "
           "index or forward only under `arg < count` on every CFG path, and a failed body read can only throw. "
           "Each Opus volume's window is (start, length) from the disc catalogue and is what Volume::Access checks "
@@ -24,7 +25,9 @@ def fill(claim, na):
           "exit-status value sets, must-dataflow size checks on every FileAccess::read result, input-governed loop exits, "
           "field-based taint from 32-bit file fields to allocation sizes, dominance of optional dereferences, non-zero "
           "divisors, non-empty containers at every back()/front()/pop (must-facts, must-append dataflow, constructor "
-          "class invariant), recursive diagnose-on-failure classification of every command path",
+          "class invariant), recursive diagnose-on-failure classification of every command path; may-state analysis "
+          "`a rewind is paired with a state change` in the track decoders; raw-bound / successful-scan dominance for "
+          "every BitStream access (call-graph chains)",
           "Decides ten structural necessary conditions of clean failure for all inputs (nine were violated by a hostile "
           "file or command line before the fix: commits). Does not decide general memory safety/termination of the "
           "parsers or assertion reachability.",
@@ -37,7 +40,8 @@ def fill(claim, na):
           "cursor/remaining-length must-facts and per-block pairing in the token decoders; type-range intervals "
           "refined by dominating comparisons for input-dependent subscripts and the lengths of library calls on fixed "
           "arrays; path-sensitive resource typestate (allocate/release/NULL) for locally released pointers; must-analysis "
-          "`table filled` for the extension-table builders; NULL-able table strings vs. non-NULL facts",
+          "`table filled` for the extension-table builders; NULL-able table strings vs. non-NULL facts (fclose(NULL) "
+          "counts as a use of an invalid handle)",
           "Decides, for every command line and input, that option state is initialised in both builds, that no option "
           "handler can see a NULL optarg or an unset long index, that main returns 0 or 1 without exit/abort and never "
           "silently, that every byte read through the token cursor is covered by a remaining-length guard, and that "
@@ -56,7 +60,8 @@ def fill(claim, na):
           "path-sensitive typestate over the CFG (flush -> good-state test -> return 0) through main and its status "
           "helper; census of stream-state resets (on std::cout or on any reference/pointer to the base ostream) and direct "
           "stream-buffer use; typestate of every local ofstream "
-          "(close, then tested good, on every non-failure scope exit); flush+ferror typestate in bbcbasic_to_text main",
+          "(close, then tested good, on every non-failure scope exit); flush+ferror typestate in bbcbasic_to_text main; "
+          "must-analysis `status known true` at every overwrite of a returned status inside a loop",
           "Decides the structural part for every output length and failure offset: exit status 0 is only reachable on "
           "paths where the output streams were flushed/closed and afterwards found good. Behaviour of the C++/C "
           "libraries under write failure is trusted, not analysed.",
@@ -66,7 +71,8 @@ def fill(claim, na):
           "must-dataflow on the CFG: EOF tested before any use of a getc result, short-fread edge leaves with failure and "
           "dominates the line decoder; static-storage write census; discarded-result and sticky-exit-status rules; "
           "table/override contradiction folded per dialect; CFG reachability rule for multi-byte token handlers (success "
-          "only through an edge establishing that the follow-on byte exists)",
+          "only through an edge establishing that the follow-on byte exists); may-analysis `input consumed while "
+          "the nothing-consumed flag is still set`",
           "Decides the structural root causes for every input and truncation point (no byte is fabricated from EOF, no "
           "stale buffer content reaches the decoder, failures reach a sticky exit status, no cross-file state). The "
           "prefix relation itself is not decided. One known finding (0x7F) is listed.",
@@ -77,7 +83,8 @@ def fill(claim, na):
           "record state, data CRC before a push), path-sensitive tracking of the state variable across loop "
           "iterations (held ID consumed once), dominance of appends by track validation, sibling rule on the flux "
           "adapters (address-based lookup), bounded ID-to-data-mark distance in the FM and MFM decoders, def-use of every "
-          "CRC register read up to its zero test (no mask/narrowing), must-facts for the per-sector track checks",
+          "CRC register read up to its zero test (no mask/narrowing), must-facts for the per-sector track checks; "
+          "enumeration of every FM cell pattern the mark search admits against the byte fed to the CRC",
           "Decides the gating clauses for every bit-stream: no sector is yielded without both CRC checks having "
           "succeeded on that path (each a zero test of the whole CRC register), a data field is only accepted close to "
           "its ID field, every sector of a track is validated, and the image adapters look sectors up by recorded "
@@ -90,7 +97,8 @@ def fill(claim, na):
           "std::filesystem modifiers, open modes) against a confirmed table, cross-checked in the thorough tier with "
           "the external-symbol census of the linked LLVM IR; interprocedural string taint from catalogue bytes to "
           "created paths with a structural sanitiser recogniser; constant-suffix folding and identity-test dominance for "
-          "`a created file is not an input image`; must-analysis `the destination ends in a slash`",
+          "`a created file is not an input image`; must-analysis `the destination ends in a slash`; backward slice of "
+          "every created name for fixed-size buffers with unchecked bounded fills",
           "Decides for all catalogues and commands that only the confirmed sites can create files, that images are "
           "opened read-only, that catalogue bytes cannot put a '/' into a created path, that the leaf is appended to a "
           "directory ending in '/', and that a created file cannot be an input image (one known finding: the body "
@@ -101,7 +109,8 @@ def fill(claim, na):
           "layering census by build target; effect analysis of every verbose-guarded region (verbose flag tracked "
           "through bool parameters and function pointers; purity of callees with local-effect refinement); "
           "field-wise check of the presentation option handlers; single-consumer census for UI/terminal inputs; "
-          "non-determinism census",
+          "non-determinism census; may-throw sets of the functions that read the environment; const-ness of what runs "
+          "under --show-config",
           "Decides the structural part for every image and command: nothing executed only under --verbose or "
           "--show-config can alter standard output, exit status or program state; --ui/COLUMNS reach only cat. "
           "Equality of outputs as such is not executed or compared.",
@@ -109,9 +118,11 @@ def fill(claim, na):
           "DESIGN.md 3/C18")
     claim("C02",
           "bit-provenance abstract domain (each result bit an XOR-affine form of symbolic catalogue bits) over every "
-          "metadata accessor, the catalogue-header constructor, sign_extend and the CRC step; source-order and "
+          "metadata accessor, the catalogue-header constructor, sign_extend and the CRC register update (update_bit and "
+          "one pass of update() evaluated on all paths, affine case splits, against the CCITT step); source-order and "
           "sign-extension-use rules on the info line and .inf writer; sibling-agreement rule on cat's tests for the "
-          "current directory (sort comparator vs. listing loop)",
+          "current directory (sort comparator vs. listing loop); optional-ness of the cycle number up to where it is "
+          "printed; enumeration of occupied drives walks the table",
           "Decides the field-decoding clauses exhaustively (all 2^64 metadata values, all header bytes): every field "
           "shown by info/cat/.inf comes from exactly the documented bits; sign extension and CRC-16 are the documented "
           "functions; cat's sorter and printer classify 'current directory' by the same exact comparison. Column "
@@ -123,7 +134,8 @@ def fill(claim, na):
           "body read (call-graph, through locals and parameters); structural accounting rule of the sector walk "
           "with constant folding of the empty-file case; shape rule for last_sector(); contradiction rule on table-walking "
           "loops (an early `continue` whose condition cannot change on the continue path); linear form of the Opus "
-          "catalogue slot; must-analysis `sorted before extents are derived`",
+          "catalogue slot; must-analysis `sorted before extents are derived`; must-fact `length non-zero` where the "
+          "catalogue validator remembers the previous file",
           "Decides structural clauses for every catalogue value: right bits, right volume, remaining-length "
           "accounting, empty file hands over nothing, no table walk (Opus volume table) silently stops at its first "
           "skipped entry. Unrecognised code shapes are reported as undecided (exit 2), "
@@ -133,7 +145,8 @@ def fill(claim, na):
     claim("C03",
           "bit-provenance comparison of the line-number decoder with the expression parsed from doc/bbcbasic.5; "
           "def-use of stream positions and stdin; structural rule on the indentation counter; scan-extent rule on the "
-          "loop-token counter; control-dependence rule on the LISTO bits",
+          "loop-token counter; control-dependence rule on the LISTO bits; buffer/length agreement between fread and the "
+          "line decoder (terminator fact for the one dropped byte); cursor/remaining-length pairing in the token handlers",
           "Decides that GOTO/GOSUB targets are decoded by the documented formula for all 2^24 operand values, that "
           "file and standard input cannot be treated differently, and that indentation is only adjusted by the "
           "documented amounts computed from exactly the bytes of the line. Token tables, framing, quoting and number formatting are not decided.",
@@ -143,7 +156,8 @@ def fill(claim, na):
           "bit-provenance comparison of the Watford sector-2 guard with the start-sector layout; branch-fact decision "
           "table on every identifying return of probe_format and the Acorn test; constant-sector read census; "
           "guard/usage analysis of the Opus volume-table checks; must-fact `format is HDFS` at every two-sided answer; "
-          "linear form of the Opus catalogue slot",
+          "linear form of the Opus catalogue slot; provenance of the format recorded for each surface (identified on that "
+          "device, in that pass)",
           "Decides structural clauses for every disc: the guard uses the full start sector, each variant is returned "
           "only under the marker outcomes the property lists, identification reads only marker sectors by number, "
           "the Opus table's self-consistency does not depend on a geometry, the two-sided flag is honoured for HDFS "
@@ -154,7 +168,8 @@ def fill(claim, na):
     claim("C15",
           "per-byte folding of the wildcard translator's switch into emitted fragments, each parsed with a POSIX ERE "
           "grammar written in the checker and compared with the AFSP one-character language; ERE parse of the "
-          "canonicalisation patterns; structural rule on the case-folding comparator",
+          "canonicalisation patterns; structural rule on the case-folding comparator; member-wise completeness of the "
+          "selector classes' copy assignment",
           "Decides the translation clause for all 255 byte values (so no wildcard character can act as an operator or "
           "be rejected), that the canonicalisation patterns are well-formed with the groups the code indexes, and "
           "that names are compared by tolower/toupper folding. regexec itself and drive/directory defaulting are not decided.",
@@ -164,7 +179,9 @@ def fill(claim, na):
           "mutation census of the drive tables; must-facts (with kills on selector updates) and dominance for every "
           "connect_internal call; structural rule on check_sequence_fits' unconditional occupancy tests; key-provenance "
           "of table lookups; must-facts at every advance of a drive-number search; interval analysis of drive-number "
-          "narrowing conversions; must-analysis of the --show-config listing limit",
+          "narrowing conversions; must-analysis of the --show-config listing limit; loop-shape rule on the enumeration of "
+          "occupied drives; position of the attach call relative to the loop assigning the policy; two-sided agreement "
+          "between `occupied` and the producers of empty entries",
           "Decides one clause for every option sequence: an attached surface is never overwritten, moved or hidden, and "
           "lookups use the requested selector, the search starts at 0 and skips only numbers found occupied or "
           "unsuitable, and an out-of-range drive number cannot wrap onto another drive. The full allocation function "
@@ -175,7 +192,8 @@ def fill(claim, na):
           "must-dataflow bound and divisor rules on FileView::read_block; short-read rule on the block presenter; "
           "table agreement of the MMB reader with doc/mmb.5 (status switch folded per value, size constants); "
           "dependency analysis of the slot offset; shape rule on the two-sided view parameters; polynomial identity "
-          "(normal forms with integer-division atoms) for the stride formula",
+          "(normal forms with integer-division atoms) for the stride formula; loop-condition independence of the MMB "
+          "table scan; base-10 census of numeric argument parsing",
           "Decides structural clauses for every container, geometry and slot: out-of-surface reads fail, no short block "
           "is served, MMB statuses/sizes are the documented ones, a slot's offset depends on its number only, and the "
           "interleaved/non-interleaved views have the documented take/leave/skip shape, and the position forwarded "
@@ -186,7 +204,8 @@ def fill(claim, na):
           "must-facts on the hint logic (extension tests only on a name with .gz stripped); folding of the zlib "
           "error switch and window-bits constant; CFG exit analysis of the inflate loop; zlib entry-point census; "
           "member-continuation rule with EOF-evidence reachability; opener selection rule; bound of every buffer "
-          "growth in both FileAccess::read implementations; zlib-counter and mutable-static censuses",
+          "growth in both FileAccess::read implementations; zlib-counter and mutable-static censuses; short-read edge "
+          "of the decompressed read returns the data; signedness of the seek-back offset",
           "Decides structural clauses for every image and .gz stream: compressed and uncompressed names get the same "
           "identification hints, only gzip framing is accepted, every zlib error raises, the loop ends only at the "
           "end of the last member, integrity checks are not disabled. Equality of outputs is not executed.",
